@@ -26,7 +26,7 @@ ASSUMPTIONS = [
     "node.children / tree.children (all kinds) and node.kind are the trusted accessors",
     "a kind that no child has is a legal argument (result: empty list / None / False)",
 ]
-EXHAUSTIVE_NOTE = {"quick": "all kind patterns of length <= 5 over 3 kinds, top-level and nested", "thorough": "all kind patterns of length <= 7 over 3 kinds, top-level and nested"}
+EXHAUSTIVE_NOTE = {"quick": "all kind patterns of length <= 5 over 3 kinds, top-level and nested", "thorough": "all kind patterns of length <= 8 over 3 kinds, top-level and nested"}
 
 KINDS = ["kx", "ky", "kz"]
 QUERY_KINDS = ["kx", "ky", "kz", "x", "y", "z", "child", "nope"]
@@ -153,7 +153,7 @@ def run_random(case, rec):
 
 
 def enum_cases(tier):
-    m = 5 if tier == "quick" else 7
+    m = 5 if tier == "quick" else 8
     for n in range(0, m + 1):
         for pat in itertools.product("xyz", repeat=n):
             for nested in (False, True):
@@ -185,5 +185,5 @@ def hyp_cases(draw, tier):
 
 PARTS = [
     Part("kind-patterns", run_pattern, enum=enum_cases),
-    Part("random-typed", run_random, strategy=lambda tier: hyp_cases(tier), n={"quick": 200, "thorough": 20000}),
+    Part("random-typed", run_random, strategy=lambda tier: hyp_cases(tier), n={"quick": 400, "thorough": 80000}),
 ]
